@@ -292,3 +292,264 @@ Proof.
     try (repeat constructor; discriminate); try (vm_compute; reflexivity);
     try (vm_compute; discriminate).
 Qed.
+
+(* ==================================================================================== *)
+(** * END TO END, continued: FROM THE FLAT PAYLOAD, and strands
+      (Proofs/ComposePayload.v, ComposeStrand.v, ComposePayloadStrand.v)
+
+   [survey_payload tv vr kr mr vc kc mc S] is the response of the cube query for the survey S: the
+   row-major flattening of [tabulate S] over ALL dimensions (missing elements and the full MR
+   selection axis included).  [slice_counts] is the function of Model/CubeCounts.v that the
+   correspondence checks evaluate on the JSON payload (reshape -> Cube._valid_idxs -> dimension
+   order -> _slice_idx_expr -> count class).  Its four base blocks ARE the matrices [t_counts],
+   [t_rb], [t_cb], [t_tb] the theorems above (and the END TO END theorems of Props/C11.v, C12.v,
+   C17.v) are stated on: they are theorems about what the model computes from the payload. *)
+From CC Require Import Proofs.ComposePayload Proofs.ComposeStrand Proofs.ComposePayloadStrand.
+
+Theorem C03_survey_blocks_from_payload S tv vr kr mr vc kc mc k :
+  t_ok tv -> cat_or_mr kr -> cat_or_mr kc -> k < t_n tv ->
+  exists so,
+    slice_counts (cube_dims tv kr mr kc mc) (survey_payload tv vr kr mr vc kc mc S) k = Some so /\
+    so_counts so = t_counts S tv vr kr mr vc kc mc k /\
+    so_row_bases so = t_rb S tv vr kr mr vc kc mc k /\
+    so_column_bases so = t_cb S tv vr kr mr vc kc mc k /\
+    so_table_bases so = t_tb S tv vr kr mr vc kc mc k.
+Proof. exact (slice_counts_of_survey S tv vr kr mr vc kc mc k). Qed.
+Print Assumptions C03_survey_blocks_from_payload.
+
+Theorem C03_survey_payload_def tv vr kr mr vc kc mc S :
+  survey_payload tv vr kr mr vc kc mc S
+  = flatten (raw_shape (cube_dims tv kr mr kc mc))
+            (fun idx => Fin (tabulate (cube_vars tv vr kr vc kc) S idx)).
+Proof. exact eq_refl. Qed.
+Print Assumptions C03_survey_payload_def.
+
+(* STRANDS (1-D cubes).  Categorical: p_i = w(category i) / w(any valid category), NaN iff nobody
+   has a valid answer, in [0, 1], and the proportions of all valid categories add up to 1 ... *)
+Theorem C03_survey_strand_cat S v ms i : wf_survey S -> i < nval ms ->
+  match vnth (st_cat_props S v ms) i with
+  | NaN => (wsum S (fun r => ok_cat ms (ans r v)) == 0)%Q
+  | Fin p => ~ (wsum S (fun r => ok_cat ms (ans r v)) == 0)%Q /\
+             (p == wsum S (fun r => in_cat ms (ans r v) i) / wsum S (fun r => ok_cat ms (ans r v)))%Q /\
+             (0 <= p)%Q /\ (p <= 1)%Q
+  | Inf _ => False
+  end.
+Proof. exact (fun Hwf => strand_cat_proportion_cases S v ms Hwf i). Qed.
+Print Assumptions C03_survey_strand_cat.
+
+Theorem C03_survey_strand_cat_sum_to_one S v ms :
+  ~ (wsum S (fun r => ok_cat ms (ans r v)) == 0)%Q -> xsum (st_cat_props S v ms) =x= Fin 1.
+Proof. exact (strand_cat_proportions_sum_one S v ms). Qed.
+Print Assumptions C03_survey_strand_cat_sum_to_one.
+
+(* ... multiple response: p_i = w(selected item i) / w(item i not missing) *)
+Theorem C03_survey_strand_mr S v ms i : wf_survey S -> i < nval ms ->
+  match vnth (st_mr_props S v ms) i with
+  | NaN => (wsum S (fun r => ok_mr ms (ans r v) i) == 0)%Q
+  | Fin p => ~ (wsum S (fun r => ok_mr ms (ans r v) i) == 0)%Q /\
+             (p == wsum S (fun r => in_mr ms (ans r v) i) / wsum S (fun r => ok_mr ms (ans r v) i))%Q /\
+             (0 <= p)%Q /\ (p <= 1)%Q
+  | Inf _ => False
+  end.
+Proof. exact (fun Hwf => strand_mr_proportion_cases S v ms Hwf i). Qed.
+Print Assumptions C03_survey_strand_mr.
+
+(* the strand vectors are what [strand_counts] extracts from the flat payload *)
+Theorem C03_survey_strand_from_payload S v ms :
+  (exists st, strand_counts (dims_of KCat ms) (strand_payload v KCat ms S) false 0 = Some st /\
+     st_counts st = st_cat_counts S v ms /\ st_bases st = st_cat_bases S v ms /\
+     st_cat_props S v ms = strand_props_base (st_counts st) (st_bases st)) /\
+  (exists st, strand_counts (dims_of KMr ms) (strand_payload v KMr ms S) false 0 = Some st /\
+     st_counts st = st_mr_counts S v ms /\ st_bases st = st_mr_bases S v ms /\
+     st_mr_props S v ms = strand_props_base (st_counts st) (st_bases st)).
+Proof. exact (conj (strand_cat_from_payload S v ms) (strand_mr_from_payload S v ms)). Qed.
+Print Assumptions C03_survey_strand_from_payload.
+
+(* Non-vacuity: the survey of C03_survey_example through the payload (24 payload cells: 4 row
+   categories x 2 items x 3 selection states), and its variable 0 / variable 1 as strands *)
+Example C03_survey_payload_example :
+  let S := [ mkResp [ACat 0; AMr [Sel; Oth]; ACat 0] (3 # 2);
+             mkResp [ACat 2; AMr [Sel; Mis]; ACat 1] 2;
+             mkResp [ACat 1; AMr [Sel; Sel]; ACat 0] 5;
+             mkResp [ACat 2; AMr [Oth; Sel]; ACat 1] (1 # 4);
+             mkResp [ACat 0; AMr [Oth; Oth]; ACat 2] 1 ] in
+  let mr := [false; true; false; false] in
+  let mc := [false; false] in
+  wf_survey S /\ nval mr = 3 /\ nval mc = 2 /\
+  length (survey_payload None 0 KCat mr 1 KMr mc S) = 24 /\
+  option_map (fun so => map (map xred) (so_row_bases so))
+             (slice_counts (cube_dims None KCat mr KMr mc) (survey_payload None 0 KCat mr 1 KMr mc S) 0)
+    = Some [[Fin (5 # 2); Fin (5 # 2)]; [Fin (9 # 4); Fin (1 # 4)]; [Fin 0; Fin 0]] /\
+  map xred (st_cat_props S 0 mr) = [Fin (10 # 19); Fin (9 # 19); Fin 0] /\
+  map xred (st_mr_props S 1 mc) = [Fin (34 # 39); Fin (21 # 31)] /\
+  ~ (wsum S (fun r => ok_cat mr (ans r 0)) == 0)%Q.
+Proof.
+  cbv zeta. repeat split; try lia; try (repeat constructor; discriminate);
+    try (vm_compute; reflexivity); try (vm_compute; discriminate).
+Qed.
+
+(* ==== GenAgree (measures): what matrix/measure.py, stripe/measure.py, cubepart.py SAY NOW ==== *)
+(* Gen/MeasureSrc.v, Gen/StripeMeasureSrc.v, Gen/PartMeasureSrc.v are REWRITTEN FROM THE SOURCE on every
+   check by harness/translate/measures.py (an `ast` whitelist, fail-closed): one [option mexp] per
+   (class, member) -- per block for a `blocks` member -- read through the wiring of the collection class.
+   The theorems below say that what the source SAYS NOW ([meval] / the signed-square reading [meval_sq] of
+   the translated term, Base/MeasureExp.v), for ALL input blocks, sizes and subtotal lists, IS the
+   definition of Model.Proportions the theorems above are about -- tagged shape and every in-range cell.
+   [None] on the left = the translator could not read the member (then only the correspondence ties it).
+   A change of meaning in the source breaks these obligations (Proofs/GenAgreeProportions.v fails). *)
+From Coq Require String.
+From CC Require Base.MeasureExp Model.Subtotals Model.Proportions Gen.MeasureSrc Gen.StripeMeasureSrc Gen.PartMeasureSrc Gen.Tables
+     Proofs.GenAgreeMeasTac Proofs.GenAgreeProportions.
+Section GenAgreeMeasures_C03.   (* scopes and imports below end with the section *)
+Import Coq.Strings.String CC.Base.MeasureExp CC.Model.Subtotals CC.Model.Proportions CC.Gen.MeasureSrc CC.Gen.StripeMeasureSrc
+       CC.Gen.PartMeasureSrc CC.Gen.Tables CC.Proofs.GenAgreeMeasTac CC.Proofs.GenAgreeProportions.
+Import Coq.Lists.List.ListNotations CC.Base.XQ.
+Local Close Scope Q_scope.
+Local Open Scope string_scope.
+Local Open Scope nat_scope.
+
+Theorem C03_gen_weighted_counts :
+  (match src_WeightedCounts_blocks_00 with
+  | Some e => forall nr nc rsubs csubs rd cd blk cubem cubeflag flag,
+      holds_mat (menv_mat nr nc rsubs csubs rd cd blk cubem cubeflag flag) e DR DC
+        (mnth (b_base (counts_model nr nc rsubs csubs cubem cubeflag)))
+  | None => True
+  end) /\
+  (match src_WeightedCounts_blocks_01 with
+  | Some e => forall nr nc rsubs csubs rd cd blk cubem cubeflag flag,
+      holds_mat (menv_mat nr nc rsubs csubs rd cd blk cubem cubeflag flag) e DR DCS
+        (mnth (b_cols (counts_model nr nc rsubs csubs cubem cubeflag)))
+  | None => True
+  end) /\
+  (match src_WeightedCounts_blocks_10 with
+  | Some e => forall nr nc rsubs csubs rd cd blk cubem cubeflag flag,
+      holds_mat (menv_mat nr nc rsubs csubs rd cd blk cubem cubeflag flag) e DRS DC
+        (mnth (b_rows (counts_model nr nc rsubs csubs cubem cubeflag)))
+  | None => True
+  end) /\
+  (match src_WeightedCounts_blocks_11 with
+  | Some e => forall nr nc rsubs csubs rd cd blk cubem cubeflag flag,
+      holds_mat (menv_mat nr nc rsubs csubs rd cd blk cubem cubeflag flag) e DRS DCS
+        (mnth (b_inter (counts_model nr nc rsubs csubs cubem cubeflag)))
+  | None => True
+  end).
+Proof. exact (conj gen_WeightedCounts_blocks_00 (conj gen_WeightedCounts_blocks_01 (conj gen_WeightedCounts_blocks_10 gen_WeightedCounts_blocks_11))). Qed.
+Print Assumptions C03_gen_weighted_counts.
+
+Theorem C03_gen_row_proportions :
+  (match src_RowProportions_blocks_00 with
+  | Some e => forall nr nc rsubs csubs rd cd blk cubem cubeflag flag,
+      holds_mat (menv_mat nr nc rsubs csubs rd cd blk cubem cubeflag flag) e DR DC
+        (mnth (b_base (row_props_model nr nc rsubs csubs rd cd blk cubem)))
+  | None => True
+  end) /\
+  (match src_RowProportions_blocks_01 with
+  | Some e => forall nr nc rsubs csubs rd cd blk cubem cubeflag flag,
+      holds_mat (menv_mat nr nc rsubs csubs rd cd blk cubem cubeflag flag) e DR DCS
+        (mnth (b_cols (row_props_model nr nc rsubs csubs rd cd blk cubem)))
+  | None => True
+  end) /\
+  (match src_RowProportions_blocks_10 with
+  | Some e => forall nr nc rsubs csubs rd cd blk cubem cubeflag flag,
+      holds_mat (menv_mat nr nc rsubs csubs rd cd blk cubem cubeflag flag) e DRS DC
+        (mnth (b_rows (row_props_model nr nc rsubs csubs rd cd blk cubem)))
+  | None => True
+  end) /\
+  (match src_RowProportions_blocks_11 with
+  | Some e => forall nr nc rsubs csubs rd cd blk cubem cubeflag flag,
+      holds_mat (menv_mat nr nc rsubs csubs rd cd blk cubem cubeflag flag) e DRS DCS
+        (mnth (b_inter (row_props_model nr nc rsubs csubs rd cd blk cubem)))
+  | None => True
+  end).
+Proof. exact (conj gen_RowProportions_blocks_00 (conj gen_RowProportions_blocks_01 (conj gen_RowProportions_blocks_10 gen_RowProportions_blocks_11))). Qed.
+Print Assumptions C03_gen_row_proportions.
+
+Theorem C03_gen_column_proportions :
+  (match src_ColumnProportions_blocks_00 with
+  | Some e => forall nr nc rsubs csubs rd cd blk cubem cubeflag flag,
+      holds_mat (menv_mat nr nc rsubs csubs rd cd blk cubem cubeflag flag) e DR DC
+        (mnth (b_base (col_props_model nr nc rsubs csubs rd cd blk cubem)))
+  | None => True
+  end) /\
+  (match src_ColumnProportions_blocks_01 with
+  | Some e => forall nr nc rsubs csubs rd cd blk cubem cubeflag flag,
+      holds_mat (menv_mat nr nc rsubs csubs rd cd blk cubem cubeflag flag) e DR DCS
+        (mnth (b_cols (col_props_model nr nc rsubs csubs rd cd blk cubem)))
+  | None => True
+  end) /\
+  (match src_ColumnProportions_blocks_10 with
+  | Some e => forall nr nc rsubs csubs rd cd blk cubem cubeflag flag,
+      holds_mat (menv_mat nr nc rsubs csubs rd cd blk cubem cubeflag flag) e DRS DC
+        (mnth (b_rows (col_props_model nr nc rsubs csubs rd cd blk cubem)))
+  | None => True
+  end) /\
+  (match src_ColumnProportions_blocks_11 with
+  | Some e => forall nr nc rsubs csubs rd cd blk cubem cubeflag flag,
+      holds_mat (menv_mat nr nc rsubs csubs rd cd blk cubem cubeflag flag) e DRS DCS
+        (mnth (b_inter (col_props_model nr nc rsubs csubs rd cd blk cubem)))
+  | None => True
+  end).
+Proof. exact (conj gen_ColumnProportions_blocks_00 (conj gen_ColumnProportions_blocks_01 (conj gen_ColumnProportions_blocks_10 gen_ColumnProportions_blocks_11))). Qed.
+Print Assumptions C03_gen_column_proportions.
+
+Theorem C03_gen_table_proportions :
+  (match src_TableProportions_blocks_00 with
+  | Some e => forall nr nc rsubs csubs rd cd blk cubem cubeflag flag,
+      holds_mat (menv_mat nr nc rsubs csubs rd cd blk cubem cubeflag flag) e DR DC
+        (mnth (b_base (table_props_model nr nc rsubs csubs blk)))
+  | None => True
+  end) /\
+  (match src_TableProportions_blocks_01 with
+  | Some e => forall nr nc rsubs csubs rd cd blk cubem cubeflag flag,
+      holds_mat (menv_mat nr nc rsubs csubs rd cd blk cubem cubeflag flag) e DR DCS
+        (mnth (b_cols (table_props_model nr nc rsubs csubs blk)))
+  | None => True
+  end) /\
+  (match src_TableProportions_blocks_10 with
+  | Some e => forall nr nc rsubs csubs rd cd blk cubem cubeflag flag,
+      holds_mat (menv_mat nr nc rsubs csubs rd cd blk cubem cubeflag flag) e DRS DC
+        (mnth (b_rows (table_props_model nr nc rsubs csubs blk)))
+  | None => True
+  end) /\
+  (match src_TableProportions_blocks_11 with
+  | Some e => forall nr nc rsubs csubs rd cd blk cubem cubeflag flag,
+      holds_mat (menv_mat nr nc rsubs csubs rd cd blk cubem cubeflag flag) e DRS DCS
+        (mnth (b_inter (table_props_model nr nc rsubs csubs blk)))
+  | None => True
+  end).
+Proof. exact (conj gen_TableProportions_blocks_00 (conj gen_TableProportions_blocks_01 (conj gen_TableProportions_blocks_10 gen_TableProportions_blocks_11))). Qed.
+Print Assumptions C03_gen_table_proportions.
+
+Theorem C03_gen_strand_table_proportions :
+  (match ssrc_TableProportions_base_values with
+  | Some e => forall subs rd vblk bases,
+      holds_vec (senv_std (List.length (vblk "weighted_counts" 0)) subs rd vblk (strand_cube bases)) e DR
+        (vnth (strand_props_base (vblk "weighted_counts" 0) bases))
+  | None => True
+  end) /\
+  (match ssrc_TableProportions_subtotal_values with
+  | Some e => forall n subs rd vblk counts bases tb,
+      holds_vec (senv_full n subs rd vblk (strand_cube_sub bases tb) (strand_cubel counts bases)) e DRS
+        (fun k => strand_wave_value counts bases rd (nth k subs nosub)
+                    (xdiv (vnth (vblk "weighted_counts" 1) k) tb))
+  | None => True
+  end).
+Proof. exact (conj gen_stripe_TableProportions_base_values gen_stripe_TableProportions_subtotal_values). Qed.
+Print Assumptions C03_gen_strand_table_proportions.
+
+(* non-vacuity: on counts 3, 1 with row base 4 the translated base block of the row proportions
+   evaluates to 1/4 in cell (0, 1) *)
+Example C03_gen_example :
+  match src_RowProportions_blocks_00 with
+  | Some e =>
+      let blk := fun (m : string) (_ _ : nat) =>
+        if String.eqb m "weighted_counts" then [[Fin 3%Q; Fin 1%Q]] else [[Fin 4%Q; Fin 4%Q]] in
+      match meval (menv_mat 1 2 [] [] false false blk (fun _ _ => []) (fun _ _ => false) (fun _ => false)) e with
+      | VMat DR DC f => f 0 1 =x= Fin (Qmake 1 4)
+      | _ => False
+      end
+  | None => True
+  end.
+Proof. vm_compute. first [exact I | reflexivity]. Qed.
+
+End GenAgreeMeasures_C03.
